@@ -1,0 +1,59 @@
+//go:build verif
+
+package headers
+
+import "time"
+
+// Verification hooks (build tag "verif" only): expose the unexported parsers
+// so that an external harness can compare them with their formal models.
+
+// VerifParseRange runs parseRangeHeader and reports a panic instead of propagating it.
+func VerifParseRange(s string) (start, end int64, err error, panicked bool) {
+	defer func() {
+		if r := recover(); r != nil {
+			panicked = true
+		}
+	}()
+	rh, err := parseRangeHeader(s)
+	return rh.start, rh.end, err, false
+}
+
+// VerifSliceSize runs rangeHeader.SliceSize on an explicit (start, end) pair.
+func VerifSliceSize(start, end, size int64) (s int64, e int64, err error, panicked bool) {
+	defer func() {
+		if r := recover(); r != nil {
+			panicked = true
+		}
+	}()
+	s, e, err = rangeHeader{start: start, end: end}.SliceSize(size)
+	return s, e, err, false
+}
+
+// VerifParseCacheControl runs parseCacheControl.
+func VerifParseCacheControl(s string) (noCache bool, maxAge time.Duration, err error, panicked bool) {
+	defer func() {
+		if r := recover(); r != nil {
+			panicked = true
+		}
+	}()
+	cc, err := parseCacheControl(s)
+	return cc.noCache, cc.maxAge, err, false
+}
+
+// VerifRange exposes the parsed Range directive of a HeaderDirectives value.
+func (hd *HeaderDirectives) VerifRange() (start, end int64, present bool) {
+	if !hd.Range.IsPresent() {
+		return 0, 0, false
+	}
+	v := hd.Range.Value()
+	return v.start, v.end, true
+}
+
+// VerifCacheControl exposes the parsed Cache-Control directive of a HeaderDirectives value.
+func (hd *HeaderDirectives) VerifCacheControl() (noCache bool, maxAge time.Duration, present bool) {
+	if !hd.CacheControl.IsPresent() {
+		return false, 0, false
+	}
+	v := hd.CacheControl.Value()
+	return v.noCache, v.maxAge, true
+}
